@@ -24,18 +24,7 @@ def pbl_namespace(ctx):
 
 
 class NPX(npshim.NP):
-    def arange(self, start, stop=None, step=1):
-        """np.arange(a, b, s): ceil((b-a)/s) elements a + k*s (A2).  The length is a fresh
-        integer N with the defining fact  N-1 < (b-a)/s <= N  kept in run.int_defs."""
-        run = sym.engine()
-        if stop is None:
-            start, stop = Num(0), start
-        a, b, s = num(start), num(stop), num(step)
-        # the length is a function of the arguments (congruence across calls)
-        N = Num(z3.Function("arange_len", R, R, R, z3.IntSort())(a.zr(), b.zr(), s.zr()))
-        run.assume(N >= 0)
-        run.__dict__.setdefault("arange_defs", []).append((N, a, b, s))
-        return Arr([Axis(N)], lambda k: a + k * s, "float")
+    pass
 
 
 def generate_psi_phi(ctx):
